@@ -104,8 +104,9 @@ func (c *NamedCollectionNames) FindRegex(key *regexp.Regexp) []types.MatchData {
 	n := 0
 	// Collect matching data slices in a single pass to avoid evaluating the regex twice per key.
 	var matched [][]keyValue
-	for k, data := range c.collection.data {
+	for _, k := range c.collection.keys {
 		if key.MatchString(k) {
+			data := c.collection.data[k]
 			n += len(data)
 			matched = append(matched, data)
 		}
@@ -154,8 +155,8 @@ func (c *NamedCollectionNames) Get(key string) []string {
 
 func (c *NamedCollectionNames) FindAll() []types.MatchData {
 	n := 0
-	for _, data := range c.collection.data {
-		n += len(data)
+	for _, k := range c.collection.keys {
+		n += len(c.collection.data[k])
 	}
 	if n == 0 {
 		return nil
@@ -163,8 +164,8 @@ func (c *NamedCollectionNames) FindAll() []types.MatchData {
 	buf := make([]corazarules.MatchData, n)
 	res := make([]types.MatchData, n)
 	i := 0
-	for _, data := range c.collection.data {
-		for _, d := range data {
+	for _, k := range c.collection.keys {
+		for _, d := range c.collection.data[k] {
 			buf[i] = corazarules.MatchData{
 				Variable_: c.variable,
 				Key_:      d.key,
@@ -186,8 +187,8 @@ func (c *NamedCollectionNames) String() string {
 	res.WriteString(c.variable.Name())
 	res.WriteString(": ")
 	firstOccurrence := true
-	for _, data := range c.collection.data {
-		for _, d := range data {
+	for _, k := range c.collection.keys {
+		for _, d := range c.collection.data[k] {
 			if !firstOccurrence {
 				res.WriteString(",")
 			}
